@@ -72,13 +72,14 @@ var whitelist = []fnSpec{
 	{dir: "prove", file: "dfpn.go", recv: "proofNumbers", name: "exceeded", lean: "pnExceeded"},
 	{dir: "prove", file: "dfpn.go", recv: "proofNumbers", name: "solved", lean: "pnSolved"},
 
-	// group Tak: tak/pieces.go, Position.ToMove
+	// group Tak: tak/pieces.go, Position.ToMove, Position.Hash
 	{dir: "tak", file: "pieces.go", name: "MakePiece", lean: "makePiece", group: "Tak"},
 	{dir: "tak", file: "pieces.go", recv: "Piece", name: "Color", lean: "pieceColor", group: "Tak"},
 	{dir: "tak", file: "pieces.go", recv: "Piece", name: "Kind", lean: "pieceKind", group: "Tak"},
 	{dir: "tak", file: "pieces.go", recv: "Piece", name: "IsRoad", lean: "pieceIsRoad", group: "Tak"},
 	{dir: "tak", file: "pieces.go", recv: "Color", name: "Flip", lean: "colorFlip", group: "Tak"},
 	{dir: "tak", file: "game.go", recv: "Position", name: "ToMove", lean: "positionToMove", group: "Tak"},
+	{dir: "tak", file: "hash.go", recv: "Position", name: "Hash", lean: "positionHash", group: "Tak"},
 
 	// group Over: bitboard.Flood and the game-end helpers of tak/game.go
 	{dir: "bitboard", file: "bits.go", name: "Flood", lean: "flood", group: "Over", fuel: []string{"66"}},
